@@ -724,6 +724,18 @@ func (ex *Exec) callExternal(c *ast.CallExpr, o *types.Func, args []Term, argTyp
 	if r, ok := ex.osModel(full, c, args); ok {
 		return r
 	}
+	switch {
+	case strings.HasSuffix(full, "opa/rego.Rego.PrepareForEval"):
+		rs := ex.freshResults(sig.Results(), "prepare")
+		g := ex.st.ghost
+		ex.st.ghost["opaRejected"] = ex.def("opaRejected", Or(g["opaRejected"], Not(Eq(rs[1], Term{"nilAny", SAny}))))
+		ex.note("OPA PrepareForEval: a module calling a denied built-in is rejected with an error (A-OPA6); the error result is otherwise unconstrained")
+		return rs
+	case strings.HasSuffix(full, "opa/rego.PreparedEvalQuery.Eval"):
+		rs := ex.freshResults(sig.Results(), "eval")
+		ex.st.ghost["opaEvaluated"] = TTrue
+		return rs
+	}
 	// an unmodelled operating-system primitive may change the file system / stdout ghost state
 	if o.Pkg() != nil {
 		switch o.Pkg().Path() {
